@@ -68,6 +68,18 @@ var linkRows = []linkRow{
 	{name: "early-return-across-modules", want: "a-early main\na-late main\n", mods: map[string]string{
 		"main": "import { f } from a;\nlet tag = \"main\";\nfn main() { println(f(true), tag); println(f(false), tag); }\n",
 		"a":    "let tag = \"a\";\npub fn f(c: bool) -> str { for i in 0..3 { if c { return tag + \"-early\"; } } tag + \"-late\" }\nfn main() {}\n"}},
+	// an imported global IS the defining module's global: both sides see each other's updates
+	{name: "imported-global-is-shared", want: "1 1\n2 2\n12 12\n", mods: map[string]string{
+		"main": "import { g, bump, get } from a;\nfn main() { println(g, get()); bump(); println(g, get()); g += 10; println(g, get()); }\n",
+		"a":    "pub let g = 1;\npub fn bump() { g += 1; }\npub fn get() -> int { g }\nfn main() {}\n"}},
+	{name: "imported-global-shared-by-two-importers", want: "5 5 5\n", mods: map[string]string{
+		"main": "import { g } from a;\nimport { setg, viab } from b;\nfn main() { setg(5); println(g, viab(), g); }\n",
+		"a":    "pub let g = 1;\nfn main() {}\n",
+		"b":    "import { g } from a;\npub fn setg(v: int) { g = v; }\npub fn viab() -> int { g }\nfn main() {}\n"}},
+	{name: "module-state-survives-a-second-import-statement", want: "1 11 112\n", mods: map[string]string{
+		"main": "import { f } from a;\nimport { h } from a;\nimport { k } from b;\nfn main() { println(f(), h(), k()); }\n",
+		"a":    "let n = 0;\npub fn f() -> int { n += 1; n }\npub fn h() -> int { n += 10; n }\nfn main() {}\n",
+		"b":    "import { f } from a;\npub fn k() -> int { f() + 100 }\nfn main() {}\n"}},
 	{name: "same-function-name-in-three-modules", want: "a.f b.f c.f main.f\n", mods: map[string]string{
 		"main": "import { ga } from a;\nimport { gb } from b;\nimport { gc } from c;\nfn f() -> str { \"main.f\" }\nfn main() { println(ga(), gb(), gc(), f()); }\n",
 		"a":    "fn f() -> str { \"a.f\" }\npub fn ga() -> str { f() }\nfn main() {}\n",
